@@ -67,6 +67,8 @@ NOTES = {
  "C18-seed5": "missed by C18 as it stood (no format code started with a quoted literal or had two adjacent ones); caught since three such codes are among the displayed formats",
  "C19-seed5": "caught by C19 as it stood (negative values below 1 under thousands-separator patterns)",
  "C20-seed5": "missed by C20 as it stood but caught by C13 (sink space); C20 catches it since every case starts with an export of a decoy sheet into a writer that refuses every byte",
+ "C05-seed6": "missed by C05 as it stood (the hidden flag of a row only ever came together with a height and a style); caught since the dims space gives every column / row one of FIVE states, `hidden only` among them",
+ "C06-seed6": "missed by C06 as it stood (its tab colour was always an rgb value) but caught by C04 (corpus files with theme tab colours); C06 catches it since the kind `tab-color-theme` (theme index + tint, no rgb) was added",
  "C09-seed2": "caught by C09 as it stood (translate clause: a reference leaving the grid followed by another reference) and by C03 (shared-edge family)",
 
  "C11-seed1": "missed by the check as it stood when the seed arrived (exit 0: no operation of the alphabet made a materialised sheet need a NEW numbered dependent part); caught after the edit operation also adds a comment (clause saved-content-equals-eager, the unloaded sheet's comments are replaced)",
